@@ -130,7 +130,9 @@ def run_gadget(inst):
         if kind == "binary":
             hv["b"] = w.add_variables(["b"], name_prefix="b_", lb=0, ub=1, var_type="integer")["b"]
             hv["c"] = w.add_variables(["c"], name_prefix="c_", lb=0, ub=ub, var_type="continuous")["c"]
-            hv["p"] = w.add_variables(["p"], name_prefix="p_", lb=0, ub=max(ub, 1) * 2, var_type="continuous")["p"]
+            # the helper documents assumptions on the binary and the continuous variable only: the product variable is
+            # declared wide (negative values allowed), so the emitted rows alone must force p = b*c
+            hv["p"] = w.add_variables(["p"], name_prefix="p_", lb=-(2 * ub + 1), ub=2 * ub + 1, var_type="continuous")["p"]
             w.add_binary_continuous_product_constraint(binary_var=hv["b"], continuous_var=hv["c"], product_var=hv["p"],
                                                        lb=0, ub=ub, name="g")
         elif kind == "integer":
